@@ -257,8 +257,10 @@ def _inside_integration(q):
         if isinstance(o, dict):
             if o.get('e') == 'col' and 'q3' in o:
                 o['t'] = '?unstripped-qualifier:' + o['q3']
+                q['unstripped'] = 1
             if o.get('f') == 'table' and o.get('db'):
                 o['name'] = '?unstripped-qualifier:%s.%s' % (o['db'], o['name'])
+                q['unstripped'] = 1
             for v in list(o.values()):
                 walk(v)
         elif isinstance(o, list):
